@@ -591,6 +591,20 @@ def corr(ctx):
             tags.append(("guard", case["sub_seed"], ik, raised, len(spectra)))
         ctx.count(f"corr.guard.{raised}")
     update_lines(ctx, rng, lines, expect, tags)
+    # explicit frozen_states on irreducible k-points (site symmetry, diamond): the rows of the real frozen mask against
+    # the model's explicitFrozen; the same runs are checked as oracle cases (invariants at every k of the full mesh)
+    collect = []
+    oracle_frozen_states_sitesym(ctx, lean_lines=collect)
+    ctx.__dict__["_c24_fs_done"] = True
+    for form, fs, kptirr, masks, spectra, base in collect:
+        if isinstance(fs, dict):
+            data = ";".join(ints([k] + list(b)) for k, b in fs.items())
+            lines.append(f"explicit dict {data} {ints(kptirr)}")
+        else:
+            lines.append(f"explicit all {ints(fs)} {ints(kptirr)}")
+        expect.append(";".join(ints(np.where(m)[0]) for m in masks))
+        tags.append(("explicit", form))
+        ctx.count("corr.explicit_frozen_states." + form)
     out = ctx.lean(lines)
     guard = {}
     for l, o, e, t in zip(lines, out, expect, tags):
@@ -601,6 +615,10 @@ def corr(ctx):
             if (mf, mr, mk, ma) != (cf, cr, ck, ca) or ms != mk:
                 ctx.mismatch(f"masks at k={t[2]}: model frozen|sel|free|ksel|assert={o} code frozen|free|selected={cf}|{cr}|{ck}",
                              dict(line=l, sub_seed=t[1]))
+        elif t[0] == "explicit":
+            ctx.case(signature=l, nontrivial=True)
+            if o != e:
+                ctx.mismatch(f"explicit frozen_states ({t[1]}) per irreducible k-point: model={o} code={e}", dict(line=l))
         elif t[0] == "update":
             ctx.case(signature=l, nontrivial=True)
             mo, co = o.split("|"), e.split("|")
@@ -704,6 +722,84 @@ def oracle_real_data(ctx, scale):
         ctx.count("oracle.realdata.Fe222" + (".cut_multiplet" if cut else ""))
 
 
+def load_diamond(with_symmetrizer=True):
+    """the diamond 2x2x2 data set of the repository (read only), assembled from the repository's own readers with two
+    reader processes (WannierData.from_w90_files starts one process per core, which costs ~30 s on a loaded machine)"""
+    import os
+    from ..common import REPO
+    from wannierberri.w90files import WIN, EIG, AMN, MMN
+    from wannierberri.w90files.bkvectors import BKVectors
+    from wannierberri.w90files.wandata import WannierData
+    from wannierberri.symmetry.sawf import SymmetrizerSAWF
+    seed = os.path.join(REPO, "tests", "data", "diamond", "diamond")
+    if not all(os.path.exists(seed + e) and os.path.getsize(seed + e) > 0 for e in (".mmn", ".amn", ".eig", ".win", ".sawf.npz")):
+        return None, None
+    with quiet():
+        wd = WannierData()
+        wd.seedname = "/tmp/agentL-unused"
+        wd.set_file("win", WIN.from_w90_file(seedname=seed))
+        wd.set_chk(read=False)
+        bk = BKVectors.from_kpoints(recip_lattice=wd.chk.recip_lattice, mp_grid=wd.chk.mp_grid, kpoints_red=wd.chk.kpt_red)
+        wd.set_file("bkvec", bk)
+        wd.set_file("mmn", MMN.from_w90_file(seedname=seed, bkvec=bk, npar=2))
+        wd.set_file("amn", AMN.from_w90_file(seedname=seed, npar=2))
+        wd.set_file("eig", EIG.from_w90_file(seedname=seed))
+        sym = SymmetrizerSAWF.from_npz(seed + ".sawf.npz") if with_symmetrizer else None
+    return wd, sym
+
+
+def oracle_frozen_states_sitesym(ctx, lean_lines=None):
+    """both forms of the explicit `frozen_states` (a list = every k-point; a dict keyed by GLOBAL k-point indices, including
+    irreducible points whose global index is >= NKirr) x sitesym in {False, True} on the diamond data, whose irreducible
+    k-points [0, 1, 3] are not the first three: the three invariants at EVERY k-point of the full mesh, the explicitly
+    frozen bands being required in the span at every member of the star of the k-point they were given for"""
+    import copy
+    wd0, sym = load_diamond()
+    if wd0 is None:
+        ctx.note("diamond data set not available; frozen_states x sitesym part skipped")
+        return
+    NK, NB, NW = wd0.mmn.NK, wd0.mmn.NB, wd0.amn.NW
+    spectra = [[Fr(float(e)) for e in wd0.eig.data[ik]] for ik in range(NK)]
+    kptirr = [int(k) for k in sym.kptirr]
+    star = {k: [j for j in range(NK) if int(sym.kptirr[sym.kpt2kptirr[j]]) == k] for k in kptirr}
+    bands = [0, 1, 2, 3]
+    forms = [("list", bands, {k: bands for k in range(NK)}),
+             ("dict-all-irr", {k: bands for k in kptirr}, None),
+             ("dict-last-irr", {kptirr[-1]: bands}, None)]
+    base = dict(froz_min=float("inf"), froz_max=float("-inf"), outer_min=float("-inf"), outer_max=45.0, num_wann=NW)
+    for form, fs, _ in forms:
+        for sitesym in (False, True):
+            if isinstance(fs, dict):
+                # expected explicitly frozen k-points: the keys, and with site symmetry the whole star of each key
+                exp = {}
+                for k, b in fs.items():
+                    for j in (star[k] if sitesym else [k]):
+                        exp[j] = b
+            else:
+                exp = {k: fs for k in range(NK)}
+            p_spec = dict(base, frozen_states=exp)
+            ms = [spec_masks(E, p_spec, ik) for ik, E in enumerate(spectra)]
+            if not all(sum(fz) <= NW <= sum(sl) for fz, sl, _ in ms):
+                continue
+            wd = copy.deepcopy(wd0)
+            if sitesym:
+                with quiet():
+                    wd.set_symmetrizer(copy.deepcopy(sym))
+            opts = dict(init="amn", num_iter=ctx.rng.choice([0, 4]), sitesym=sitesym, check_irreps=False,
+                        localise=ctx.rng.random() < 0.7)
+            p_run = dict(base, frozen_states=fs)
+            info = dict(data="tests/data/diamond", kptirr=kptirr, frozen_states=repr(fs), opts=opts, form=form)
+            with ctx.attempt(f"wannierise(diamond, frozen_states as {form}, sitesym={sitesym})", info):
+                with recording() as box:
+                    v = call_wannierise(wd, p_run, opts)
+                check_gauge(ctx, f"wannierise(diamond, frozen_states={form}, sitesym={sitesym})", info, v, spectra, p_spec,
+                            NK, NB, NW)
+                if lean_lines is not None and sitesym and "wz" in box:
+                    lean_lines.append((form, fs, kptirr, [np.array(kp.frozen) for kp in box["wz"].kpoints], spectra, base))
+            ctx.case(signature=("diamond-frozen_states", form, sitesym), nontrivial=True)
+            ctx.count(f"oracle.frozen_states.{form}.sitesym={sitesym}")
+
+
 def oracle_diamond_sitesym(ctx):
     """thorough tier only (loading the text files takes ~30 s): diamond with and without site symmetry"""
     import os
@@ -718,9 +814,7 @@ def oracle_diamond_sitesym(ctx):
     cwd = os.getcwd()
     os.chdir(ctx.work)
     try:
-        with quiet():
-            wd0 = wb.WannierData.from_w90_files(seedname=seed, files=["amn", "mmn", "eig", "win"], readnnkp=False)
-            symm = SymmetrizerSAWF.from_npz(seed + ".sawf.npz")
+        wd0, symm = load_diamond()
         for sitesym in (False, True):
             for (fa, fb, oa, ob) in [(-8, 20, -np.inf, np.inf), (-8, 20, -10, 40), (-8, 19.5, -10, 29.2), (0, 12, -10, 22)]:
                 with quiet():
@@ -763,6 +857,8 @@ def oracle(ctx, scale):
              f"weight outside outer window={worst['zero']:.2e}")
     if not ctx.failures:
         oracle_real_data(ctx, scale)
+    if not ctx.failures and scale == 1 and not ctx.__dict__.get("_c24_fs_done"):
+        oracle_frozen_states_sitesym(ctx)
     if ctx.tier == "thorough" and scale == 1 and not ctx.failures:
         oracle_diamond_sitesym(ctx)
 
